@@ -1,8 +1,17 @@
 #!/bin/sh
-# seed_matrix.sh: every seeded change against the quick check of its property (expects exit=1 each)
-cd /verif
-for d in seeded/*/; do
+# seed_matrix.sh [name-prefix]: every seeded change against the quick check of its property
+# (expects exit=1 each).  Works on a scratch worktree of /repo's HEAD (BT_VERIF_REPO), so
+# it can run beside other work.
+cd "$(dirname "$0")/.."
+W=/tmp/matrix-repo-$$
+git -C /repo worktree add -q --detach $W HEAD || exit 2
+export BT_VERIF_REPO=$W
+for d in seeded/${1:-}*/; do
   n=$(basename $d); p=${n%%-*}
-  r=$(sh tools/try_seed.sh /verif/$d $p 2>&1 | tail -1)
-  echo "$n $r"
+  if ! git -C $W apply "$(pwd)/$d/patch.diff" 2>/dev/null; then echo "$n APPLY-FAILED"; continue; fi
+  BT_VERIF_EVIDENCE_SUFFIX=.matrix ./check $p > /tmp/matrix_$$.out 2>&1; rc=$?
+  git -C $W checkout -q -- .
+  echo "$n exit=$rc viol=$(grep -c '^VIOLATION' /tmp/matrix_$$.out) $(grep -m1 -A1 '^VIOLATION' /tmp/matrix_$$.out | tail -1 | cut -c1-120)"
 done
+rm -f /tmp/matrix_$$.out evidence/*.matrix.json
+git -C /repo worktree remove --force $W
